@@ -266,3 +266,33 @@ prop('C13',
      outside=['responses, timeouts, cancellation, reading and answering inbound requests (futures over substream I/O and tokio timers)',
               'several peers', 'the run() select loop'],
      )
+
+CLOSED_REPORT = dict(harness='c07_closed_report', covers=['c07.completed', 'c07.blocked'], min_paths=27, split=0,
+                     conform={'quick': 100, 'thorough': 1000}, nvals=6)
+
+prop('C07',
+     explanation='Symbolic execution of the real ProtocolSet::report_connection_closed (a lowered async fn over FuturesUnordered and tokio channels) '
+                 'for every combination of running / shut-down / busy protocols and every order in which the concurrent sends complete.',
+     units=[CLOSED_REPORT],
+     assumptions=['tokio mpsc channels are bounded FIFOs; dropping a Receiver closes the channel; FuturesUnordered yields ready futures in a solver-chosen order',
+                  'one poll of the report future (a blocked report is examined at the point where it blocks)'],
+     bounds={'protocols': 3, 'protocol states': 'running / receiver dropped / channel full', 'polls': 1},
+     outside=['which exit paths of the per-connection task reach report_connection_closed (TcpConnection::start select loop, yamux, timers)',
+              'the manager side (C05/C06 handlers) and the application-level closed event', 'repeated connect/disconnect cycles across tasks'],
+     )
+
+prop('C08',
+     explanation='Bounded model checking of the real TransportService handlers (on_connection_established, on_connection_closed, open_substream '
+                 'with the real ConnectionHandle / ConnectionContext underneath) against a reference of the announced connections per peer.',
+     units=[
+         dict(harness='c08_service_events', covers=['c08.established', 'c08.secondary', 'c08.closed', 'c08.one-of-two-closed', 'c08.open.accepted', 'c08.open.refused'],
+              min_paths=200, split=4, params={'quick': {'steps': 5}, 'thorough': {'steps': 7}}, conform={'quick': 200, 'thorough': 2000}, nvals=24),
+         CLOSED_REPORT,
+     ],
+     assumptions=['environment: the manager announces at most two live connections per peer and closes only announced ones (the conclusion of C06)',
+                  'tokio mpsc channels modelled as bounded FIFOs; keep-alive timers are not modelled (KeepAliveTracker futures are inert)'],
+     bounds={'peers': 2, 'events': 'quick 5, thorough 7 of connection announced / closed (either of two) / open_substream'},
+     outside=['delivery of the events through ProtocolSet and the per-connection task (report_connection_established/closed, channel back-pressure)',
+              'answering a substream request exactly once unless the connection terminates (connection task)', 'keep-alive downgrades (timers)',
+              'ordering between protocols and the manager (cross-task)'],
+     )
